@@ -209,11 +209,9 @@ class ControlVariates:
         sigma_x = covariance[0:-1, 0:-1]
         sigma_xy = covariance[0:-1, -1]
         try:
-            if np.amin(np.absolute(sigma_x)) < 1e-12:
-                b_star = np.zeros_like(sigma_xy)
-            else:
-                inv_sigma_x = np.linalg.inv(sigma_x)
-                b_star = inv_sigma_x @ sigma_xy
+            # pseudo-inverse with a relative cut-off: a constant control or controls that are collinear on the sample
+            # get the minimum-norm coefficient instead of an unreliable inverse of a singular matrix
+            b_star = np.linalg.pinv(sigma_x, rcond=1e-10, hermitian=True) @ sigma_xy
         except np.linalg.LinAlgError:
             logging.log(
                 level=logging.WARNING,
